@@ -39,6 +39,48 @@ type Case struct {
 	Seq     bool              `json:"seq"`    // run one after the other instead of concurrently
 	Jitter  []int             `json:"jitter"` // per run: Gosched calls before Run
 	AllowGo bool              `json:"allow_go"`
+	// State shared by the embedder on purpose: the host variables that the native package h and the
+	// template globals declare with pointers (h.PtrN → &host.N, …) start every build at HostInit.
+	HostInit Host `json:"host_init"`
+	// SharedWrites: the code writes those host variables. The runs are then made one after the
+	// other (unsynchronised writes from concurrent runs would be the embedder's data race) and the
+	// oracle is a chain of fresh builds, each started on the host state the previous one left.
+	SharedWrites bool `json:"shared_writes,omitempty"`
+	// HostWant, when non-nil, is the host state after all runs according to the generator's own
+	// reference semantics of the snippets that write it.
+	HostWant *Host `json:"host_want,omitempty"`
+}
+
+// Host is the embedder's own state, declared to Scriggo with pointers and therefore shared by all
+// runs of one artefact (and by nothing else: every Build gets its own Host).
+type Host struct {
+	N int            `json:"n"`
+	L []int          `json:"l"`
+	M map[string]int `json:"m"`
+	S string         `json:"s"`
+}
+
+// Clone returns a deep copy; M is never nil in a copy (generated code writes into it).
+func (h Host) Clone() *Host {
+	c := &Host{N: h.N, S: h.S, L: append([]int(nil), h.L...), M: map[string]int{}}
+	for k, v := range h.M {
+		c.M[k] = v
+	}
+	return c
+}
+
+func (h *Host) String() string {
+	var ks []string
+	for k := range h.M {
+		ks = append(ks, k)
+	}
+	sort.Strings(ks)
+	var b strings.Builder
+	fmt.Fprintf(&b, "N=%d L=%v S=%q M=", h.N, h.L, h.S)
+	for _, k := range ks {
+		fmt.Fprintf(&b, "%s:%d,", k, h.M[k])
+	}
+	return b.String()
 }
 
 func (c Case) JSON() string {
@@ -54,10 +96,12 @@ type Outcome struct {
 	Panic   string `json:"panic"`   // host panic out of Run
 	// what the run's native goroutines (h.Recd, h.RecTag started with go) recorded, sorted
 	Recorded string `json:"recorded"`
+	// templates: the variables the run was given by pointer (Run vars "pv": &x, "pl": &l), after the run
+	Host string `json:"host,omitempty"`
 }
 
 func (o Outcome) String() string {
-	return fmt.Sprintf("out=%q printed=%q err=%q panic=%q recorded=%q", o.Out, o.Printed, o.Err, o.Panic, o.Recorded)
+	return fmt.Sprintf("out=%q printed=%q err=%q panic=%q recorded=%q ptrvars=%q", o.Out, o.Printed, o.Err, o.Panic, o.Recorded, o.Host)
 }
 
 type inputKey struct{}
@@ -88,9 +132,24 @@ type Counter struct{ N int }
 func (c *Counter) Add(d int) int { c.N += d; return c.N }
 func (c *Counter) Get() int      { return c.N }
 
-// declarations of the native package "h" (programs) / the globals (templates).
-func decls() native.Declarations {
+// declarations of the native package "h" (programs, and templates through import "h") / the
+// globals (templates, first letter in lower case).
+func decls(host *Host) native.Declarations {
 	return native.Declarations{
+		// variables declared with a nil pointer: no storage at build time, every run gets its own
+		// zero-valued variable
+		"NilN": (*int)(nil),
+		"NilL": (*[]int)(nil),
+		"NilM": (*map[string]int)(nil),
+		"NilS": (*string)(nil),
+		"NilF": (*float64)(nil),
+		"NilC": (*Counter)(nil),
+		"NilA": (*any)(nil),
+		// variables declared with a pointer to a host variable: shared on purpose by all the runs
+		"PtrN": &host.N,
+		"PtrL": &host.L,
+		"PtrM": &host.M,
+		"PtrS": &host.S,
 		"Input": func(env native.Env) int {
 			if in, ok := env.Context().Value(inputKey{}).(Input); ok {
 				return in.V
@@ -167,34 +226,45 @@ func fsOf(files map[string]string) fs.FS {
 
 // Artefact is a built program or template.
 type Artefact struct {
-	p *scriggo.Program
-	t *scriggo.Template
+	p    *scriggo.Program
+	t    *scriggo.Template
+	host *Host
 }
 
-// Build builds the case's artefact.
-func Build(c Case) (a *Artefact, err error) {
+// Host returns the artefact's host variables.
+func (a *Artefact) Host() *Host { return a.host }
+
+// Build builds the case's artefact, its host variables starting at c.HostInit.
+func Build(c Case) (a *Artefact, err error) { return BuildWith(c, c.HostInit) }
+
+// BuildWith builds the case's artefact with host variables that start at (a copy of) init.
+func BuildWith(c Case, init Host) (a *Artefact, err error) {
+	host := init.Clone()
+	pkgs := native.Packages{"h": native.Package{Name: "h", Declarations: decls(host)}}
 	defer func() {
 		if r := recover(); r != nil {
 			err = fmt.Errorf("build panic: %v", r)
 		}
 	}()
 	if c.Kind == "program" {
-		opts := &scriggo.BuildOptions{AllowGoStmt: c.AllowGo, Packages: native.Packages{"h": native.Package{Name: "h", Declarations: decls()}}}
+		opts := &scriggo.BuildOptions{AllowGoStmt: c.AllowGo, Packages: pkgs}
 		p, err := scriggo.Build(fsOf(c.Files), opts)
 		if err != nil {
 			return nil, err
 		}
-		return &Artefact{p: p}, nil
+		return &Artefact{p: p, host: host}, nil
 	}
-	g := lower(decls())
+	g := lower(decls(host))
 	g["v"] = (*int)(nil)
 	g["s"] = (*string)(nil)
 	g["items"] = (*[]int)(nil)
-	t, err := scriggo.BuildTemplate(fsOf(c.Files), c.Main, &scriggo.BuildOptions{AllowGoStmt: c.AllowGo, Globals: g})
+	g["pv"] = (*int)(nil)   // given to every run by pointer
+	g["pl"] = (*[]int)(nil) // given to every run by pointer
+	t, err := scriggo.BuildTemplate(fsOf(c.Files), c.Main, &scriggo.BuildOptions{AllowGoStmt: c.AllowGo, Globals: g, Packages: pkgs})
 	if err != nil {
 		return nil, err
 	}
-	return &Artefact{t: t}, nil
+	return &Artefact{t: t, host: host}, nil
 }
 
 // RunOnce runs the artefact with one input; ctx (optional) is the parent context.
@@ -232,7 +302,9 @@ func (a *Artefact) RunOnce(in Input, parent context.Context) (o Outcome) {
 	} else {
 		var out strings.Builder
 		items := append([]int(nil), in.Items...)
-		err = a.t.Run(&out, map[string]any{"v": in.V, "s": in.S, "items": items}, opts)
+		pv, pl := 3*in.V+1, append([]int(nil), in.Items...)
+		defer func() { o.Host = fmt.Sprintf("pv=%d pl=%v", pv, pl) }()
+		err = a.t.Run(&out, map[string]any{"v": in.V, "s": in.S, "items": items, "pv": &pv, "pl": &pl}, opts)
 		o.Out = out.String()
 	}
 	if err != nil {
@@ -250,6 +322,8 @@ type Result struct {
 	Got      []Outcome
 	Want     []Outcome
 	Hang     bool
+	// HostBad is non-empty when the host variables (shared on purpose) do not end as they must.
+	HostBad string
 }
 
 // Diff returns the index of the first run that differs from its oracle, or -1.
@@ -262,8 +336,20 @@ func (r Result) Diff() int {
 	return -1
 }
 
+// Bad reports whether the case fails.
+func (r Result) Bad() bool { return r.Hang || r.Diff() >= 0 || r.HostBad != "" }
+
 // Run builds c once, makes its runs (concurrently with start jitter, or sequentially) and
 // computes the oracle for every input from fresh builds.
+//
+// Oracle. State that could outlive a run but must not (variables of native packages and template
+// globals declared with nil pointers, package-level variables, closures, init-time state, …) is
+// covered by "every run equals a fresh build's single run". State that the embedder shares on
+// purpose (declared with pointers to host variables) is an input of a run like any other: when
+// the code only reads it, a fresh build started on the same host state must give the same; when
+// the code writes it (c.SharedWrites), the runs are sequential and run i must equal the single
+// run of a fresh build whose host variables start where the oracle's run i-1 left them; the
+// final host state must equal the chain's and, when given, the generator's reference c.HostWant.
 func Run(c Case) Result {
 	var res Result
 	a, err := Build(c)
@@ -277,7 +363,7 @@ func Run(c Case) Result {
 	}
 	n := len(c.Inputs)
 	res.Got = make([]Outcome, n)
-	if c.Seq {
+	if c.Seq || c.SharedWrites {
 		for i, in := range c.Inputs {
 			res.Got[i] = a.RunOnce(in, nil)
 		}
@@ -307,23 +393,48 @@ func Run(c Case) Result {
 			return res
 		}
 	}
-	// oracle: one fresh build per distinct input, run once
-	cache := map[string]Outcome{}
 	res.Want = make([]Outcome, n)
-	for i, in := range c.Inputs {
-		k, _ := json.Marshal(in)
-		if o, ok := cache[string(k)]; ok {
+	if c.SharedWrites {
+		// oracle: a chain of fresh builds over the host state
+		state := c.HostInit.Clone()
+		for i, in := range c.Inputs {
+			fresh, err := BuildWith(c, *state)
+			if err != nil {
+				res.BuildErr = "second build failed: " + err.Error()
+				return res
+			}
+			res.Want[i] = fresh.RunOnce(in, nil)
+			state = fresh.host
+		}
+		if got, want := a.host.String(), state.String(); got != want {
+			res.HostBad = fmt.Sprintf("host variables after the runs: %s; after the chain of fresh builds: %s", got, want)
+		}
+	} else {
+		// oracle: one fresh build per distinct input, run once
+		cache := map[string]Outcome{}
+		for i, in := range c.Inputs {
+			k, _ := json.Marshal(in)
+			if o, ok := cache[string(k)]; ok {
+				res.Want[i] = o
+				continue
+			}
+			fresh, err := Build(c)
+			if err != nil {
+				res.BuildErr = "second build failed: " + err.Error()
+				return res
+			}
+			o := fresh.RunOnce(in, nil)
+			cache[string(k)] = o
 			res.Want[i] = o
-			continue
 		}
-		fresh, err := Build(c)
-		if err != nil {
-			res.BuildErr = "second build failed: " + err.Error()
-			return res
+		if got, want := a.host.String(), c.HostInit.Clone().String(); got != want {
+			res.HostBad = fmt.Sprintf("host variables after runs that do not write them: %s; before: %s", got, want)
 		}
-		o := fresh.RunOnce(in, nil)
-		cache[string(k)] = o
-		res.Want[i] = o
+	}
+	if c.HostWant != nil && res.HostBad == "" {
+		if got, want := a.host.String(), c.HostWant.Clone().String(); got != want {
+			res.HostBad = fmt.Sprintf("host variables after the runs: %s; reference semantics of the generated code: %s", got, want)
+		}
 	}
 	return res
 }
